@@ -425,9 +425,10 @@ theorem bodyRead_window (H : Huff) (tbl : List (List Nat × List Nat)) (b : Body
     | .panic => True
     | .hang => True := by
   unfold bodyRead
-  split
-  · exact ⟨List.nil_prefix, by intro h; cases h⟩
-  · dsimp only
+  cases hbe : b.err with
+  | some e0 => exact ⟨List.nil_prefix, by intro h; cases h⟩
+  | none =>
+    dsimp only
     have hae := afterEnd_ok b s hd hb
     split
     · rename_i r s' heq
